@@ -230,3 +230,10 @@ pub fn selectors_info_parts(
 pub fn unused_selector() -> usize {
     crate::gates::selectors::UNUSED_SELECTOR
 }
+
+pub fn get_fri_instance<F: RichField + Extendable<D>, const D: usize>(
+    common_data: &CommonCircuitData<F, D>,
+    zeta: F::Extension,
+) -> crate::fri::structure::FriInstanceInfo<F, D> {
+    common_data.get_fri_instance(zeta)
+}
